@@ -7,4 +7,7 @@ PROPS = {
              quick_count=400, thorough_count=20000, trusted=CONC_TRUST,
              assumptions=['one atomic RMW and one RefCnt inc/dec is a bounded number of machine steps',
                           'hypotheses of the bound: the thread owns a node, and the call does not wrap the transaction counter']),
+ 'C15': dict(module='ArcSwapModel.Props.C15', harness_modes=['kinds'], extra=['extra_kinds'],
+             trusted=['std\'s Arc/Rc/Weak count behaviour and allocator addresses are parameters of the Kinds model, validated by running the real impls (not proved)'],
+             assumptions=['std: into_raw/from_raw/ptr::read+forget touch no count; clone/drop add/remove exactly one; Weak::new() is the dangling sentinel']),
 }
